@@ -1,3 +1,5 @@
+import Pocket.Lemmas.FromSourceConsts
+import Pocket.Lemmas.FromSourceKind
 import Pocket.Lemmas.StoreAddr
 /-
 C09 — at most one event per replaceable address; newer wins, older is refused.
@@ -126,5 +128,16 @@ theorem frame (s : Store) (hi : Inv s) (e : EventRec) (h5 : e.kind ≠ 5) (x : S
   · exact absurd h5' h5
   · rw [h]; exact hx
   · rw [h]; exact hx
+
+/-! ### tie to the source text: what /repo says now (translated on every run by `lib/srcfacts.py`) is what the model says -/
+
+/-- the kind classification the theorems above rest on is the one `kind.rs` states today: the three predicates, translated
+from the source text on every run, equal the model's for every kind number -/
+theorem classification_from_source (k : Nat) :
+    Src.kindIsReplaceable k = isReplaceable k ∧ Src.kindIsEphemeral k = isEphemeral k ∧
+      Src.kindIsParamReplaceable k = isParamReplaceable k := kind_predicates_from_source k
+
+/-- the identifier part of an address key is padded or cut to the source's `PADLEN` -/
+theorem address_padding_from_source (v : Bytes) : ∀ p ∈ Src.c_lmdb_PADLEN, (pad182 v).length = p := index_padding_from_source v
 
 end Pocket.C09
